@@ -122,7 +122,25 @@ class Ticket:
             if nctx is not None:
                 crel = self._must_release_ctx(nctx, depth + 1)
                 cb = nctx.body
-                if crel and (0 in crel or not cb.paths_avoiding(0, set(cb.exits()), crel)):
+                # paths of the callee on which there is nothing to release: the end flag is known to be set (nobody is
+                # admitted any more), or the ticket is known to have been passed (ticket < now-serving — not a path of a
+                # caller that holds the ticket)
+                void = set()
+                if crel:
+                    for x in cb.reachable(0):
+                        if cb.blocks[x]["cleanup"]:
+                            continue
+                        for f in block_facts(ev, nctx, x):
+                            if f[0] == "flag" and f[2] is True and self.role_of(f[1]) == ("done", self.adt):
+                                void.add(x)
+                            if f[0] == "lt" and len(f) == 3 and self.serving_load(f[2]) is not None:
+                                void.add(x)
+                            if f[0] == "anyof" and f[1] and all(
+                                    any((g[0] == "flag" and g[2] is True and self.role_of(g[1]) == ("done", self.adt)) or
+                                        (g[0] == "lt" and len(g) == 3 and self.serving_load(g[2]) is not None) for g in alt)
+                                    for alt in f[1]):
+                                void.add(x)
+                if crel and (0 in crel or not cb.paths_avoiding(0, set(cb.exits()), crel | void)):
                     out.add(bi)
         return out
 
@@ -493,8 +511,16 @@ def rule_gate(env, shared):
             if any(o.key == k and o.status == "viol" for o in out):
                 continue
             loc = b.file_line(b.term(bb)["loc"])
+            private = not (b.info or {}).get("exported") and (b.info or {}).get("container") in ("inherent", "free") \
+                and bool([1 for (cb, _cbb) in all_callers(env, b.def_) if cb.def_ != b.def_])
             if gated:
                 out.append(Ob("GATE", k, "ok", loc, "ticket is handed out only while the end flag is false", True))
+            elif private:
+                # a private waiting helper may report `ticket == now-serving` alone: whoever calls it holds the admission
+                # through its return value and is judged here in turn — (a) where it touches the wrapped iterator, (b) where
+                # it hands the ticket on — and must have consulted the end flag by then
+                out.append(Ob("GATE", k, "ok", loc, "private helper: the end flag is demanded of every caller that uses or "
+                              "hands on the admission"))
             else:
                 out = [o for o in out if o.key != k]
                 out.append(Ob("GATE", k, "viol", loc,
